@@ -1,5 +1,5 @@
-(* C01 — Typed value round trip through tokens and through bytes.  PARTIAL as a theorem: the round trip is proved for the universe simple_ty (scalars of every width, strings, byte slices and byte arrays, arrays, slices, structs with exported and unexported fields, pointers, time values, named and registered types - no maps, interfaces, tuple funcs); those three type constructors are covered by the correspondence (Model/Marshal.v, Model/Unmarshal.v evaluated on every generated case) and by the direct round-trip oracle of the harness.  `normal` (Spec/Conform.v) is the property's equivalence made functional: unexported fields stay zero, nil and empty slices coincide, NaN comes back as NaN. *)
-From SbModel Require Import Model.Marshal Model.Unmarshal Spec.Conform Proofs.MarshalP Proofs.UnmarshalP.
+(* C01 — Typed value round trip through tokens and through bytes.  Two layers.  (1) c01_roundtrip_full*: the whole universe - maps, interface-typed positions, tuple funcs, structs, pointers, named and registered types - under the domain predicates ty_ok / dom (Proofs/RoundTripFullP.v): map keys with pairwise distinct key streams, a nil tuple func has no results, a registered dynamic type in an interface position is known to the reader's registry, other interface contents lie in the domain where schema-less decoding is lossless (any_stream_ok), interface-typed map keys hold a one-token value; equivalence `equiv` = the property's: deep equality where nil and empty slices/maps coincide, NaN equals NaN, tuple funcs are compared by their results, interface positions by their canonical stream.  PARTIAL: not covered - interface values nested below the top of a map key, registered types nested inside []any / map[string]any held in an interface, funcs with more than 50 results (see c01_roundtrip_full_refuted for the six edges, each cut away by exactly one clause).  (2) c01_roundtrip_tokens*: the universe simple_ty (no maps, interfaces, tuple funcs) with the FUNCTIONAL normal form `normal` (unexported fields zero, nil/empty coincide, NaN canonical); c01_equiv_normal ties the two.  The byte route composes with c02_decode_encode.  Everything outside the proved domains is decided by the correspondence (Model/Marshal.v, Model/Unmarshal.v evaluated on every generated case) and the Go round-trip oracle. *)
+From SbModel Require Import Model.Marshal Model.Unmarshal Spec.Conform Proofs.MarshalP Proofs.UnmarshalP Proofs.AnyP Proofs.RoundTripFullP.
 Local Open Scope nat_scope.
 
 From SbModel Require Import Model.Codec Spec.DecodeGrammar Proofs.CodecP.
@@ -67,6 +67,106 @@ Theorem c01_example_roundtrip  :
   exists f, unm pf f o R ExOuter (zero ExOuter) (ts ++ rest) = Ok (normal ExOuter ex_outer, rest).
 Proof. exact (roundtrip_ex_thm ). Qed.
 
+(* maps, interface positions, tuple funcs included: marshalling v and unmarshalling into a zero T yields an EQUIVALENT value, whatever follows in the stream *)
+Theorem c01_roundtrip_full_partial pf o R t v ts rest :
+  wf_ty t = true -> ty_ok t = true -> has_type t v = true -> no_ptr_to_nil v = true -> dom R t v ->
+  marshal default_opts t v = Ok ts ->
+  exists f v', unm pf f o R t (zero t) (ts ++ rest) = Ok (v', rest) /\ equiv t v v'.
+Proof. exact (roundtrip_full_partial pf o R t v ts rest). Qed.
+
+(* explicit fuel; moreover the result re-marshals to the identical stream *)
+Theorem c01_roundtrip_full_partial_fuel pf o R t v ts rest f :
+  wf_ty t = true -> ty_ok t = true -> has_type t v = true -> dom R t v ->
+  marshal default_opts t v = Ok ts -> (2 * fsz v + length ts < f)%nat ->
+  exists v', unm pf f o R t (zero t) (ts ++ rest) = Ok (v', rest) /\ equiv t v v' /\
+             marshal default_opts t v' = Ok ts.
+Proof. exact (roundtrip_full_partial_fuel pf o R t v ts rest f). Qed.
+
+(* one result for every sufficient fuel *)
+Theorem c01_roundtrip_full_stable pf o R t v ts rest :
+  wf_ty t = true -> ty_ok t = true -> has_type t v = true -> dom R t v ->
+  marshal default_opts t v = Ok ts ->
+  exists v', equiv t v v' /\ marshal default_opts t v' = Ok ts /\
+             forall f, (2 * fsz v + length ts < f)%nat -> unm pf f o R t (zero t) (ts ++ rest) = Ok (v', rest).
+Proof. exact (roundtrip_full_partial_stable pf o R t v ts rest). Qed.
+
+(* on the first universe the equivalence agrees with the functional normal form *)
+Theorem c01_equiv_normal  :
+  forall v t, simple_ty t = true -> has_type t v = true -> equiv t v (normal t v).
+Proof. exact (equiv_normal ). Qed.
+
+Local Open Scope N_scope.
+(* non-vacuity: a ten-field struct (map[string][]int8 with two entries, any holding an int, a two-result func, a pointer to map[int]float64 with a NaN value, any holding a registered struct that has an any field, an unexported field, a nil func, a map keyed by structs, a defined interface type, map[any]string with string / defined-int / nil keys) meets every hypothesis *)
+Theorem c01_full_example_hyps  :
+  wf_ty ExFull = true /\ ty_ok ExFull = true /\ has_type ExFull ex_full = true /\
+  no_ptr_to_nil ex_full = true /\ dom ExRegistry ExFull ex_full /\
+  marshal default_opts ExFull ex_full = Ok ex_full_ts /\ length ex_full_ts = 65%nat.
+Proof. exact (roundtrip_full_ex_hyps ). Qed.
+
+(* and the theorem applied to it *)
+Theorem c01_full_example_roundtrip  :
+  forall pf o rest,
+  exists f v', unm pf f o ExRegistry ExFull (zero ExFull) (ex_full_ts ++ rest) = Ok (v', rest) /\
+               equiv ExFull ex_full v'.
+Proof. exact (roundtrip_full_ex_thm ). Qed.
+
+Local Open Scope N_scope.
+(* map[any]int{[2]byte{1,2}: 5}: refuted by an earlier version of this proof, reproduced on the code, repaired in /repo (toComparable in the typed map path) *)
+Theorem c01_bytes_key_in_any  :
+  (wf_ty ExBytesKeyT = true /\ ty_ok ExBytesKeyT = true /\ has_type ExBytesKeyT ex_bytes_key = true /\
+   no_ptr_to_nil ex_bytes_key = true /\ dom [] ExBytesKeyT ex_bytes_key /\
+   marshal default_opts ExBytesKeyT ex_bytes_key =
+     Ok [T KMap VNone; T KBytes (VBytes [1; 2]); T KInt (VI WNat 5); T KMapEnd VNone]) /\
+  unm (fun _ _ => None) 20 default_opts [] ExBytesKeyT (zero ExBytesKeyT)
+      ([T KMap VNone; T KBytes (VBytes [1; 2]); T KInt (VI WNat 5); T KMapEnd VNone] ++ [T KBool (VBool true)])
+    = Ok (ex_bytes_key, [T KBool (VBool true)]) /\
+  (forall pf o R rest, exists f v',
+     unm pf f o R ExBytesKeyT (zero ExBytesKeyT)
+         ([T KMap VNone; T KBytes (VBytes [1; 2]); T KInt (VI WNat 5); T KMapEnd VNone] ++ rest) = Ok (v', rest) /\
+     equiv ExBytesKeyT ex_bytes_key v').
+Proof. exact (roundtrip_bytes_key_in_any ). Qed.
+
+Local Open Scope N_scope.
+(* the edges of the domain, each a concrete value that does NOT round-trip in the model: 1 = the known finding (pointer to nil interface), 2 = model only (Go's Register panics on type P *any), 3 = recorded finding ([2]int in an interface-typed map key; reproduced on the code), 4 = nil func with results (outside the property's quantifier), 5 = any holding a struct with a nil pointer field (outside the schema-less domain, C11), 6 = reader registry does not know the type *)
+Theorem c01_roundtrip_full_refuted  :
+  (* 1. *any pointing at a nil interface: marshals to Nil, comes back as a nil pointer
+        (the interface-typed variant of the known **T finding; cut away by [dom]: nilish) *)
+  refutes [] (TPtr TAny) (GPtr (Some (GAny None))) /\
+  (* 2. a REGISTERED defined type over *any (type P *any; sb.Register(P)): the target does not
+        skip its own TypeName, the interface it points to looks P up and receives a P value;
+        the interface position holds [Int 5] before and [TypeName P, Int 5] after
+        (cut away by [ty_ok]) *)
+  refutes [([80], RegPtrAny)] RegPtrAny (GPtr (Some (GAny (Some (TInt WNat, GInt 5))))) /\
+  (* 3. map[any]int with an array of ints as key: marshals, but the key is decoded schema-less into
+        a []any, which is unhashable: BadMapKey (cut away by [dom]: [keyin]; confirmed on the Go
+        code and recorded as a finding.  The byte-array variant of it was repaired - toComparable in
+        the typed map path - and is now the positive example roundtrip_bytes_key_in_any) *)
+  refutes [] (TMap TAny (TInt WNat))
+    (GMap false [(GAny (Some (TArray 2 (TInt WNat), GList false [GInt 1; GInt 2])), GInt 5)]) /\
+  (* 4. a nil tuple func with results: marshals to the empty tuple, TooFew on the way back
+        (the stated edge; cut away by [dom]) *)
+  refutes [] (TFunc [TInt WNat]) (GFunc None) /\
+  (* 5. an interface holding a struct with a nil pointer field: schema-less decoding rejects a Nil
+        field value (the edge of Proofs/AnyP.v; cut away by [dom]: any_stream_ok) *)
+  refutes [] TAny (GAny (Some (TStruct [([65], true, TPtr TBool)], GStruct [GPtr None]))) /\
+  (* 6. the hypothesis on the registry is needed: an interface holding a value of a registered
+        type the READER's registry does not know: the TypeName is dropped, the position holds
+        [TypeName R, Int 5] before and [Int 5] after *)
+  refutes [] TAny (GAny (Some (TNamed [82] true [] (TInt WNat), GInt 5))).
+Proof. exact (roundtrip_full_refuted ). Qed.
+
+Local Open Scope N_scope.
+(* each of them violates exactly one clause of ty_ok / dom *)
+Theorem c01_refuted_outside_domain  :
+  ~ dom [] (TPtr TAny) (GPtr (Some (GAny None))) /\
+  ty_ok RegPtrAny = false /\
+  ~ dom [] (TMap TAny (TInt WNat))
+      (GMap false [(GAny (Some (TArray 2 (TInt WNat), GList false [GInt 1; GInt 2])), GInt 5)]) /\
+  ~ dom [] (TFunc [TInt WNat]) (GFunc None) /\
+  ~ dom [] TAny (GAny (Some (TStruct [([65], true, TPtr TBool)], GStruct [GPtr None]))) /\
+  ~ dom [] TAny (GAny (Some (TNamed [82] true [] (TInt WNat), GInt 5))).
+Proof. exact (refuted_outside_domain ). Qed.
+
 Print Assumptions c01_marshal_total.
 Print Assumptions c01_roundtrip_tokens_partial.
 Print Assumptions c01_roundtrip_tokens_fuel.
@@ -76,3 +176,12 @@ Print Assumptions c01_registered_pointer_nonnil.
 Print Assumptions c01_registered_time_roundtrip.
 Print Assumptions c01_example_hypotheses.
 Print Assumptions c01_example_roundtrip.
+Print Assumptions c01_roundtrip_full_partial.
+Print Assumptions c01_roundtrip_full_partial_fuel.
+Print Assumptions c01_roundtrip_full_stable.
+Print Assumptions c01_equiv_normal.
+Print Assumptions c01_full_example_hyps.
+Print Assumptions c01_full_example_roundtrip.
+Print Assumptions c01_bytes_key_in_any.
+Print Assumptions c01_roundtrip_full_refuted.
+Print Assumptions c01_refuted_outside_domain.
